@@ -231,6 +231,67 @@ func runC05(env *Env) {
 			rep.Violate(key, cs, o.problem+"; log: "+logString(o.log))
 		}
 	}
+	// the fork reached again after an activation that found neither a true condition nor a default flow (error trace):
+	// the next token is decided on its own — it forks on the conditions true by then, or is reported again
+	for _, second := range [][2]bool{{true, true}, {true, false}, {false, true}, {false, false}} {
+		if rep.Saturated() {
+			break
+		}
+		cs := fmt.Sprintf("inclusive fork without default reached twice: first with no true condition, then with conditions %v", second)
+		env.Current(cs)
+		p := &Prog{}
+		p.Node("start", "start")
+		p.Node("par", "P")
+		p.Flow("start", "P", "")
+		p.Node("incl", "F")
+		for _, t := range []string{"T1", "T2"} {
+			p.Node("task", t)
+			p.Flow("P", t, "")
+			p.Flow(t, "F", "")
+		}
+		for i, b := range []string{"A", "B"} {
+			p.Node("task", b)
+			p.Node("end", "e"+b)
+			p.Flow("F", b, fmt.Sprintf("c%d", i))
+			p.Flow(b, "e"+b, "")
+		}
+		defs, err := ParseDefs(p.XML(""))
+		must(err)
+		in, err := StartInst(defs, InstOpt{Vars: map[string]any{"c0": false, "c1": false}})
+		must(err)
+		rep.Evaluations++
+		rep.Nontrivial++
+		rep.Count("fork_after_failed_activation")
+		fail := func(msg string) { rep.Violate("C05-fork", cs, msg+"; log: "+logString(in.Log())) }
+		if !in.WaitUntil(tmoStep, func(l []Ev) bool { return countEv(l, "task", "T1") >= 1 && countEv(l, "task", "T2") >= 1 }) {
+			fail("T1 and T2 were not both requested")
+			in.Close()
+			continue
+		}
+		in.Answer("T1", tmoStep)
+		if !in.WaitUntil(tmoStep, func(l []Ev) bool { return countEv(l, "error", "*") >= 1 }) {
+			fail("first token: no true condition, no default flow, but no error trace")
+			in.Close()
+			continue
+		}
+		in.P.Locator().SetVariable("c0", second[0])
+		in.P.Locator().SetVariable("c1", second[1])
+		in.Answer("T2", tmoStep)
+		wantA, wantB, wantErr := b2i(second[0]), b2i(second[1]), 1
+		if !second[0] && !second[1] {
+			wantErr = 2
+		}
+		in.WaitUntil(tmoStep, func(l []Ev) bool {
+			return countEv(l, "task", "A") >= wantA && countEv(l, "task", "B") >= wantB && countEv(l, "error", "*") >= wantErr
+		})
+		time.Sleep(5 * time.Millisecond)
+		l := in.Log()
+		if countEv(l, "task", "A") != wantA || countEv(l, "task", "B") != wantB || countEv(l, "error", "*") != wantErr {
+			fail(fmt.Sprintf("second token: requested A %d times (expected %d), B %d times (expected %d), error traces %d (expected %d)",
+				countEv(l, "task", "A"), wantA, countEv(l, "task", "B"), wantB, countEv(l, "error", "*"), wantErr))
+		}
+		in.Close()
+	}
 	env.WriteCases(rep, "", "Corr.C05corr", "list nat * nat * list nat * nat * list nat * list nat * list nat", items, "c05_mismatches")
 	env.WriteReport(rep)
 }
